@@ -5,6 +5,10 @@ V = os.path.dirname(os.path.dirname(os.path.abspath(__file__)))
 ids = [json.loads(l)["id"] for l in open(os.path.join(V, "properties.jsonl"))]
 
 CHECKS = {
+ "C18": dict(cat="exploration", design="§4 C18",
+   technique="differential testing (run vs raw-text compile -> transpile -> execute) over the corpus, Hypothesis-generated single-module programs and an exhaustive enumeration of format-special string literals",
+   text="Single-module corpus files, programs from the generators of C01/C07/C08/C12/C13/C15/C17 and exhaustively all string literals up to length 3 (quick, plus a seeded sample of length 4; thorough: all up to length 4) over the format-special alphabet are compiled to human-readable bytecode, renamed, transpiled and executed; stdout and exit class must equal those of `run`, and the string programs must reproduce the bytes computed from the decoded strings.",
+   note="Same normalisation as C04. The name<->opcode table is exercised only through the instructions the generated programs emit."),
  "C04": dict(cat="exploration", design="§4 C04",
    technique="differential testing (run vs compile+execute) over the example corpus, Hypothesis-generated programs of every feature area and an exhaustive enumeration of format-special string literals",
    text="For every .ms file of the example corpus, for programs drawn from the generators of C01/C07/C08/C12/C13/C15 and the two-module failing programs of C17, and exhaustively for all string literals up to length 3 (quick, plus a seeded sample of length 4; thorough: all 22 621 up to length 4) over the format-special alphabet in escaped and raw spelling (as print operand, concatenation operand and map key), stdout and exit class of `run` must equal those of `compile` + `execute`; the string programs must also reproduce the bytes computed from the decoded strings. Exploration of program space; exhaustive for the string alphabet to the stated length in the thorough tier.",
